@@ -120,6 +120,17 @@ func (env *specEnv) tr(e *Expr) specVal {
 		x := env.tr(e.Args[0])
 		return env.deref(x, e)
 	case "sel":
+		// package-qualified object: pkg.Name
+		if b := e.Args[0]; b.Op == "ident" {
+			if _, bound := env.lookupBound(b.Name); !bound && env.names[b.Name] == nil && env.lets[b.Name] == nil && env.pkg.Scope().Lookup(b.Name) == nil {
+				if p := env.findPackage(b.Name); p != nil {
+					if obj := p.Scope().Lookup(e.Name); obj != nil {
+						return env.object(obj)
+					}
+					sfail("no %s in package %s", e.Name, b.Name)
+				}
+			}
+		}
 		return env.sel(env.tr(e.Args[0]), e.Name, e)
 	case "index":
 		return env.index(env.tr(e.Args[0]), env.tr(e.Args[1]), e)
@@ -344,6 +355,30 @@ func arrayRange(sort string) string {
 		}
 	}
 	return inner
+}
+
+// findPackage finds a package of the module (or one it imports) by name.
+func (env *specEnv) findPackage(name string) *types.Package {
+	var found *types.Package
+	seen := map[*types.Package]bool{}
+	var visit func(p *types.Package)
+	visit = func(p *types.Package) {
+		if seen[p] || found != nil {
+			return
+		}
+		seen[p] = true
+		if p.Name() == name || shortPkg(p.Path()) == name {
+			found = p
+			return
+		}
+		for _, q := range p.Imports() {
+			visit(q)
+		}
+	}
+	for p := range env.vc.P.Module {
+		visit(p)
+	}
+	return found
 }
 
 // resolveType resolves a type name as written in a contract.
@@ -694,6 +729,9 @@ func (env *specEnv) call(e *Expr) specVal {
 		case "in64":
 			x := env.tr(args[0])
 			return ghost("(and (<= (- 9223372036854775808) "+x.T+") (<= "+x.T+" 9223372036854775807))", "Bool")
+		case "ix":
+			a, b := env.tr(args[0]), env.tr(args[1])
+			return ghost("(ix "+a.T+" "+b.T+")", "Int")
 		case "pre":
 			// pre(e): value of e when the enclosing loop (with a modifies clause) was entered
 			if env.loopPre == nil {
